@@ -57,6 +57,9 @@ type Statement struct {
 	// Terminal is the executing method (Exec, Scan, Count, …) if the chain is run in this function.
 	Terminal string
 	Returned bool
+	// Merged is set on the param-rooted fragment of a helper once its clauses have been appended
+	// to the statement of a caller (the fragment is then dropped from the model).
+	Merged bool
 	// RawSQL holds the parsed statement of NewRaw roots.
 	Raw     *sqlfe.Stmt
 	RawText string
@@ -184,6 +187,11 @@ type builder struct {
 	info  *types.Info
 	fd    *ast.FuncDecl
 	model *Model
+	// all builders of the package, for reading through helpers that continue a chain they are handed
+	all        map[*ast.FuncDecl]*builder
+	done       bool
+	running    bool
+	paramStmts map[int]*Statement
 	// variable bindings
 	binds map[types.Object][]*binding
 	// statement of each builder call expression already processed
@@ -196,20 +204,46 @@ type builder struct {
 func Build(pkgs []*packages.Package) *Model {
 	m := &Model{}
 	for _, pk := range pkgs {
+		all := map[*ast.FuncDecl]*builder{}
+		var order []*builder
 		for _, f := range pk.Syntax {
 			for _, d := range f.Decls {
 				fd, ok := d.(*ast.FuncDecl)
 				if !ok || fd.Body == nil {
 					continue
 				}
-				b := &builder{pk: pk, info: pk.TypesInfo, fd: fd, model: m, binds: map[types.Object][]*binding{}, byExpr: map[ast.Expr][]*Statement{}}
+				b := &builder{pk: pk, info: pk.TypesInfo, fd: fd, model: m, binds: map[types.Object][]*binding{}, byExpr: map[ast.Expr][]*Statement{}, all: all, paramStmts: map[int]*Statement{}}
 				b.eval = NewEvaluator(pk.TypesInfo, fd)
-				b.run()
+				all[fd] = b
+				order = append(order, b)
 			}
 		}
+		for _, b := range order {
+			b.ensure()
+		}
 	}
+	// fragments merged into their callers are not statements of their own
+	kept := m.Stmts[:0]
+	for _, st := range m.Stmts {
+		if st.Merged && st.RootKind == "param" && st.Encl != nil && !ast.IsExported(st.Encl.Name.Name) {
+			continue
+		}
+		kept = append(kept, st)
+	}
+	m.Stmts = kept
 	sort.SliceStable(m.Stmts, func(i, j int) bool { return m.Stmts[i].Pos() < m.Stmts[j].Pos() })
 	return m
+}
+
+// ensure runs the builder once (helpers are run on demand, before the caller that reads through them).
+func (b *builder) ensure() {
+	if b.done || b.running {
+		return
+	}
+	b.running = true
+	b.run()
+	b.running = false
+	b.done = true
 }
 
 func (b *builder) run() {
@@ -232,17 +266,24 @@ func (b *builder) run() {
 	})
 	// parameters of query type are param-rooted statements
 	if b.fd.Type.Params != nil {
+		pi := 0
 		for _, fld := range b.fd.Type.Params.List {
 			for _, nm := range fld.Names {
 				obj := b.info.Defs[nm]
 				if obj == nil {
+					pi++
 					continue
 				}
 				if kind, ok := isBunQueryType(obj.Type()); ok {
 					st := &Statement{Kind: kind, RootKind: "param", Root: nm, Pkg: b.pk, Encl: b.fd}
 					b.model.Stmts = append(b.model.Stmts, st)
 					b.binds[obj] = append(b.binds[obj], &binding{pos: nm.Pos(), stmts: []*Statement{st}})
+					b.paramStmts[pi] = st
 				}
+				pi++
+			}
+			if len(fld.Names) == 0 {
+				pi++
 			}
 		}
 	}
@@ -560,6 +601,8 @@ func (b *builder) chain(call *ast.CallExpr) []*Statement {
 		}
 		b.model.Stmts = append(b.model.Stmts, st)
 		sts = []*Statement{st}
+	case b.passThrough(f, call) != nil:
+		sts = b.passThrough(f, call)
 	default:
 		kind, _ := isBunQueryType(resultType(b.info.TypeOf(call)))
 		st := &Statement{Kind: kind, RootKind: "call", Root: call, Pkg: b.pk, Encl: b.fd}
@@ -657,4 +700,57 @@ func (s *Statement) Describe() string {
 		t = "-"
 	}
 	return fmt.Sprintf("%s[%s]", s.Kind, t)
+}
+
+// passThrough recognises a call to a helper of the same package that continues the builder chain
+// it is handed and returns it (`q = restrict(q, opts)`): the call then denotes the caller's own
+// statement, and the clauses the helper adds are appended to it, each under the facts of the
+// helper plus those of the call site. nil when the call is not of that form.
+func (b *builder) passThrough(f *types.Func, call *ast.CallExpr) []*Statement {
+	if sts, ok := b.byExpr[call]; ok {
+		return sts
+	}
+	if f == nil || FuncDeclOf == nil {
+		return nil
+	}
+	fd := FuncDeclOf(f)
+	if fd == nil {
+		return nil
+	}
+	cb := b.all[fd]
+	if cb == nil || cb == b || cb.running {
+		return nil
+	}
+	cb.ensure()
+	var out []*Statement
+	nq := 0
+	for i, a := range call.Args {
+		p := cb.paramStmts[i]
+		if p == nil {
+			continue
+		}
+		nq++
+		if !p.Returned {
+			return nil
+		}
+		base := b.exprStatements(a)
+		if len(base) == 0 {
+			return nil
+		}
+		site := astx.FactsAt(b.info, b.fd.Body, call.Pos())
+		for _, cl := range p.Clauses {
+			cp := *cl
+			cp.Facts = append(append([]astx.Fact{}, cl.Facts...), site...)
+			for _, st := range base {
+				st.Clauses = append(st.Clauses, &cp)
+			}
+		}
+		p.Merged = true
+		out = append(out, base...)
+	}
+	if nq != 1 {
+		return nil
+	}
+	b.byExpr[call] = out
+	return out
 }
